@@ -4,7 +4,7 @@ import math
 import numpy as np
 from hypothesis import strategies as st
 
-from vlib.core import HypClause
+from vlib.core import EnumClause, HypClause
 from vlib import util as U
 
 RULE = ("Hypothesis cases: pupil shape (odd/even; non-square for the fixed-sampling routes and, restricted to the x axis, "
@@ -203,6 +203,28 @@ def _check_focus_inner(case, ctx):
                     'mdft and czt intensities differ by %.3g for shift %r' % (e, shift_units))
 
 
+# ---- pupils and output windows of more than 2**20 samples (bases filled block by block, large prime-factor sizes) ----------------------------
+def enum_large(tier):
+    geos = [([1100, 1100], [1100, 1100]), ([1100, 1100], [1300, 1300]), ([1030, 1210], [1201, 1201]), ([1500, 1031], [1100, 1100])]
+    if tier == 'thorough':
+        geos += [([2100, 1100], [1300, 1300]), ([1025, 1025], [2049, 2049])]
+    k = 0
+    for shape, out in geos:
+        for route in ('mdft', 'czt'):
+            # spots far from the axis, on either side: the last rows / columns of the window matter as much as the centre
+            tilt = [[240.5, -260.0], [-310.25, 405.0], [17.0, 480.5]][k % 3]
+            yield {'shape': shape, 'dx': 0.1, 'wvl': 0.6328, 'efl': 100.0, 'tilt': tilt, 'apod': k % 2 == 1, 'seed': k, 'route': route,
+                   'via': ['function', 'wavefront'][k % 2], 'Qfft': 1, 'Qfix': [1.0, 0.85, 1.37][k % 3], 'out': out,
+                   'shift': [[0, 0], [3.5, -2]][(k // 2) % 2], 'shift_type': 'tuple', 'fftbackend': 'scipy', 'aperture': None}
+            k += 1
+
+
+def check_large(case, ctx):
+    """the same oracle as focus_where_light_lands on pupils / windows above 2**20 samples with spots in the outermost rows and columns."""
+    ctx.label('large:%dx%d->%dx%d' % tuple(case['shape'] + case['out']))
+    _check_focus_inner(case, ctx)
+
+
 def strat_unfocus(tier):
     nmax = {'quick': 20, 'thorough': 40}[tier]
     ax = U.axis_len(nmax, 1)
@@ -342,6 +364,69 @@ def _check_unfocus_inner(case, ctx):
                   atol=(2e-3 if fdt == 'float32' else 1e-9) * float(np.abs(Fn).sum()) * norm)
 
 
+# ---- coordinates reported by the views of one Wavefront follow its data through in-place crop / pad -------------------------------------------
+def strat_views(tier):
+    n = st.sampled_from([8, 9, 12, 15, 16, 21] + ([32, 33] if tier == 'thorough' else []))
+    return st.fixed_dictionaries({
+        'n': n, 'Q': st.sampled_from([2, 3, 4]), 'k': st.tuples(st.integers(-1, 1), st.integers(-1, 1)).map(list), 'dx': st.sampled_from([0.1, 1.0]),
+        'wvl': st.sampled_from([0.5, 1.55]), 'efl': st.sampled_from([20.0, 300.0]),
+        'ops': st.lists(st.one_of(st.tuples(st.just('read'), st.sampled_from(['intensity', 'phase', 'real', 'imag'])).map(list),
+                                  st.tuples(st.just('crop'), st.integers(1, 6)).map(list), st.tuples(st.just('pad'), st.integers(1, 7)).map(list),
+                                  st.tuples(st.just('crop-copy'), st.integers(1, 6)).map(list), st.tuples(st.just('pad-copy'), st.integers(1, 7)).map(list)),
+                        min_size=2, max_size=6)})
+
+
+def check_views(case, ctx):
+    """one focal-plane Wavefront through a history of view reads and in-place (or out-of-place) crop / pad2d: every view reports coordinates
+    (i - n//2) * dx of the *current* array, and the spot of a pupil with k waves of tilt sits at k lambda f / D in those coordinates."""
+    from prysm import propagation as P
+    n, Q, (kx, ky), dxp, lam, efl = case['n'], case['Q'], case['k'], case['dx'], case['wvl'], case['efl']
+    f = pupil_field({'shape': [n, n], 'tilt': [kx, ky], 'apod': False})
+    w = ctx.call(P.Wavefront(f, lam, dxp).focus, efl, Q)
+    D = n * dxp
+    ex, ey = kx * lam * efl / D, ky * lam * efl / D
+    ctx.nt(True)
+    reads = 0
+
+    def verify(obj, what):
+        my, mx = obj.data.shape
+        for view in ('intensity', 'phase', 'real', 'imag'):
+            v = getattr(obj, view)
+            U.check_shape(v.x, (my, mx), 'views:stale-grid:shape', '%s.x %s' % (view, what))
+            U.check_shape(v.y, (my, mx), 'views:stale-grid:shape', '%s.y %s' % (view, what))
+            U.check_close(np.asarray(v.x), np.broadcast_to(U.cvec(mx) * obj.dx, (my, mx)), 1e-12, 'views:stale-grid', '%s.x %s' % (view, what))
+            U.check_close(np.asarray(v.y), np.broadcast_to((U.cvec(my) * obj.dx)[:, None], (my, mx)), 1e-12, 'views:stale-grid', '%s.y %s' % (view, what))
+        I = obj.intensity
+        iy, ix = np.unravel_index(int(np.argmax(np.asarray(I.data))), I.data.shape)
+        px, py = float(np.asarray(I.x)[iy, ix]), float(np.asarray(I.y)[iy, ix])
+        ctx.require(abs(px - ex) <= 1e-9 * max(abs(ex), obj.dx) and abs(py - ey) <= 1e-9 * max(abs(ey), obj.dx), 'views:spot-position',
+                    'spot of a %r-wave tilt reported at (%.9g, %.9g), k lambda f/D = (%.9g, %.9g) %s' % ([kx, ky], px, py, ex, ey, what))
+    hist = []
+    for op, arg in case['ops']:
+        hist.append('%s:%s' % (op, arg))
+        ctx.label('op:' + op)
+        my, mx = w.data.shape
+        if op == 'read':
+            v = getattr(w, arg)
+            v.x, v.y
+            reads += 1
+            continue
+        if op in ('crop', 'crop-copy'):
+            m = max(my - arg, 2 * Q + 3, 1)      # keep the spot (|k| Q <= Q samples from the origin) inside the window
+            if m > my:
+                continue
+            other = ctx.call(w.crop, m, inplace=(op == 'crop'))
+        else:
+            other = ctx.call(w.pad2d, 1, out_shape=(my + arg, mx + arg), inplace=(op == 'pad'))      # Q is positional; out_shape overrides it
+        what = 'after %s' % ' '.join(hist)
+        if op.endswith('-copy'):
+            verify(other, what + ' (the new Wavefront)')
+        else:
+            ctx.require(other is w, 'views:inplace-returns-self', 'in-place %s did not return the Wavefront itself' % op)
+        verify(w, what)
+    ctx.label('view-reads:%d' % min(reads, 3))
+
+
 def strat_scalar(tier):
     pos = U.nice_float(1e-3, 1e3)
     return st.fixed_dictionaries({'x': pos, 'samples': st.integers(1, 8192), 'wvl': U.nice_float(0.1, 20), 'efl': U.nice_float(1, 1e5),
@@ -405,7 +490,9 @@ def check_relay(case, ctx):
 
 CLAUSES = [
     HypClause('focus_where_light_lands', strat_focus, check_focus, examples={'quick': 500, 'thorough': 3000}, shards={'quick': 8, 'thorough': 16}),
+    EnumClause('large_pupils', enum_large, check_large, shards={'quick': 8, 'thorough': 12}),
     HypClause('unfocus_spot_to_tilt', strat_unfocus, check_unfocus, examples={'quick': 400, 'thorough': 3000}, shards={'quick': 4, 'thorough': 16}),
     HypClause('relay_reported_spacing', strat_relay, check_relay, examples={'quick': 300, 'thorough': 2000}, shards={'quick': 1, 'thorough': 4}),
+    HypClause('views_follow_resizes', strat_views, check_views, examples={'quick': 200, 'thorough': 1500}, shards={'quick': 2, 'thorough': 4}),
     HypClause('scalar_laws', strat_scalar, check_scalar, examples={'quick': 500, 'thorough': 5000}, shards={'quick': 1, 'thorough': 4}),
 ]
